@@ -235,6 +235,26 @@ func caseDir(c *Case) string {
 
 type tapeRec struct{ tapes [][]uint32 }
 
+// realMode ("-family=real"): every step is also executed by the real binary
+// (built without instrumentation from the same working tree, path in
+// VERIF_REAL_BIN) in real directories: once on a persistent real
+// STATICCHECK_CACHE and once on a fresh one. The property is asserted on the
+// real binary, and the simulator's reference output must equal the real
+// fresh-cache output (otherwise the harness misrepresents the code: infra).
+var realMode bool
+
+// shiftMTimes moves the modification time of every file below dir into the
+// past: the real binary's view of a clock jump.
+func shiftMTimes(dir string, d time.Duration) {
+	filepath.Walk(dir, func(path string, info os.FileInfo, err error) error {
+		if err == nil && !info.IsDir() {
+			t := info.ModTime().Add(-d)
+			os.Chtimes(path, t, t)
+		}
+		return nil
+	})
+}
+
 func execute(c Case, rec *tapeRec) batch.Result {
 	dir := caseDir(&c)
 	defer batch.LockModDir(dir)()
@@ -259,7 +279,19 @@ func execute(c Case, rec *tapeRec) batch.Result {
 		}
 		return simlint.StdBase(batch.Scratch, s.baseFlags(), s.inv(dir).Env)
 	}
+	var realCache string
+	realBin := os.Getenv("VERIF_REAL_BIN")
+	if realMode {
+		if realBin == "" {
+			return batch.Result{Infra: "VERIF_REAL_BIN is not set"}
+		}
+		realCache, _ = os.MkdirTemp(batch.Scratch, "verif-realcache")
+		defer os.RemoveAll(realCache)
+	}
 	steps := append([]Step{{Op: "rerun", Seed: 1, Strategy: int(verifsim.StratFIFO), Procs: 4}}, c.Steps...)
+	if realMode && batch.Tier != "thorough" && len(steps) > 5 {
+		steps = steps[:5] // real runs cost seconds each in this sandbox
+	}
 	for si, step := range steps {
 		jump := apply(&st, step, history)
 		history = append(history, st.clone())
@@ -348,6 +380,27 @@ func execute(c Case, rec *tapeRec) batch.Result {
 		if ref.Stdout != "" {
 			res.Counters["steps_with_problems"]++
 		}
+		if realMode {
+			if jump > 0 {
+				shiftMTimes(realCache, time.Duration(jump)*time.Second)
+			}
+			freshDir, _ := os.MkdirTemp(batch.Scratch, "verif-realfresh")
+			realFresh, err1 := simlint.RunReal(realBin, freshDir, inv, step.Procs)
+			os.RemoveAll(freshDir)
+			realWarm, err2 := simlint.RunReal(realBin, realCache, inv, step.Procs)
+			if err1 != nil || err2 != nil {
+				return batch.Result{Infra: fmt.Sprintf("real binary: %v %v", err1, err2)}
+			}
+			res.Counters["real_binary_runs"] += 2
+			if !realWarm.Same(realFresh) {
+				fail("real-binary:warm-cache-output-differs-from-fresh-cache", "%s: the REAL binary on its persistent cache printed something else than on a fresh cache:\n%s\nstderr: %s", what, strings.ReplaceAll(simlint.Diff(realFresh, realWarm), dir, "$DIR"), realWarm.Stderr)
+				break
+			}
+			if !realFresh.Same(ref) {
+				return batch.Result{Infra: fmt.Sprintf("%s: simulator and real binary disagree on a fresh cache (the harness misrepresents the code):\n%s\nreal stderr: %s", what, simlint.Diff(ref, realFresh), realFresh.Stderr)}
+			}
+			res.Counters["sim_vs_real_agreements"]++
+		}
 	}
 	res.SimTime = now.Sub(epoch).Seconds()
 	res.Evals = res.Counters["runs_on_shared_cache"] + res.Counters["reference_runs"]
@@ -366,7 +419,12 @@ func execute(c Case, rec *tapeRec) batch.Result {
 
 type engine struct{}
 
-func (engine) Name() string     { return "histsim" }
+func (engine) Name() string {
+	if realMode {
+		return "histsim-real"
+	}
+	return "histsim"
+}
 func (engine) Property() string { return "C04" }
 
 func (engine) Generate(seed uint64, index int, tier string) json.RawMessage {
@@ -479,4 +537,16 @@ func (engine) Describe() batch.Description {
 	}
 }
 
-func main() { batch.Main(engine{}) }
+func main() {
+	var rest []string
+	for _, a := range os.Args[1:] {
+		if a == "-family=real" {
+			realMode = true
+			batch.ExtraWorkerArgs = append(batch.ExtraWorkerArgs, a)
+		} else {
+			rest = append(rest, a)
+		}
+	}
+	os.Args = append(os.Args[:1], rest...)
+	batch.Main(engine{})
+}
